@@ -25,6 +25,7 @@ package encoding
 //@   abstract_mod
 //@   requires enc != nil && len(times) >= 3
 //@   ensures enc.scale >= 1 && (forall k int :: 1 <= k && k < len(times) ==> dv(enc.scale, enc.deltas[k]))
+//@   ensures [len] len(enc.deltas) == len(times)
 //@   loop 1
 //@     invariant enc != nil && timesN == len(times) && 0 <= i && i <= timesN - 2 && len(enc.deltas) == timesN
 //@     invariant p10(enc.scale) && enc.scale >= 1
@@ -47,9 +48,122 @@ package encoding
 //@ func (*Integer).init
 //@   requires enc != nil
 //@   ensures [len] len(arr) >= 3 ==> len(enc.zigZagDeltas) == len(arr)
+//@   ensures [short] len(arr) < 3 ==> !enc.isConstDelta && !enc.isSimple8b && len(enc.zigZagDeltas) == 0
 //@   ensures [simple8b_fits] enc.isSimple8b ==> (forall k int :: 1 <= k && k < len(enc.zigZagDeltas) ==> enc.zigZagDeltas[k] <= 1152921504606846975)
 //@   ensures [const_delta] enc.isConstDelta ==> (forall k int :: 2 <= k && k < len(enc.zigZagDeltas) ==> enc.zigZagDeltas[k] == enc.zigZagDeltas[k-1])
 //@   loop 1
 //@     invariant enc != nil && 2 <= i && i <= len(arr) && len(enc.zigZagDeltas) == i
 //@     invariant enc.isSimple8b ==> (forall k int :: 1 <= k && k < i ==> enc.zigZagDeltas[k] <= 1152921504606846975)
 //@     invariant enc.isConstDelta ==> (forall k int :: 2 <= k && k < i ==> enc.zigZagDeltas[k] == enc.zigZagDeltas[k-1])
+
+// ---- integer column: the first byte of a block carries the scheme (type << 4); the encoder must write the type of
+// the scheme whose body follows, and the decoder must dispatch on the same type to that scheme's reader.
+//@ func (*Integer).Encoding
+//@   requires enc != nil
+//@   call (*Integer).encodingConstDelta
+//@     requires [tag_const_delta] enc.isConstDelta && enc.encodingType == 1
+//@   call (*Integer).encodingSimple8b
+//@     requires [tag_simple8b] !enc.isConstDelta && enc.isSimple8b && enc.encodingType == 2
+//@   call (*Integer).encodingZSTD
+//@     requires [tag_zstd] !enc.isConstDelta && !enc.isSimple8b && enc.encodingType == 3
+//@   call (*Integer).uncompressedData
+//@     requires [raw_only_for_short_columns] !enc.isConstDelta && !enc.isSimple8b && len(enc.zigZagDeltas) < 2
+
+//@ func (*Integer).encodingConstDelta
+//@   requires enc != nil && len(enc.zigZagDeltas) >= 2 && 0 <= enc.encodingType && enc.encodingType <= 15
+//@   ghost first bool = true
+//@   call append with out
+//@     requires [type_byte_first] first && len(arg0) == pos && len(arg1) == 1 ==> arg1[0] == enc.encodingType * 16
+//@   call MarshalUint64Append
+//@     set first = false
+//@     requires [first_value_after_type] len(arg0) == pos + 1 && arg1 == enc.zigZagDeltas[0]
+
+//@ func (*Integer).uncompressedData
+//@   call append with out
+//@     requires [raw_type_byte] len(arg1) == 1 && arg1[0] == 64
+
+//@ func (*BytesBuffer).Reset
+//@   requires w != nil
+//@   ensures w.buf == b
+//@   assigns w.buf
+//@ func (*Integer).decodeInit
+//@   requires enc != nil && enc.buf != nil
+//@   call NewReader
+//@     frame nothing
+//@   call WithDecoderConcurrency
+//@     frame nothing
+//@   ensures [type_from_first_byte] result == nil ==> len(in) >= 5 && enc.encodingType == old(in[0]) / 16
+//@   ensures [only_known_types] result == nil ==> enc.encodingType >= 1 && enc.encodingType <= 4
+
+//@ func (*Integer).validEncodingType
+//@   requires enc != nil
+//@   ensures result == (enc.encodingType >= 1 && enc.encodingType <= 4)
+//@   assigns nothing
+
+//@ func (*Integer).Decoding
+//@   requires enc != nil && enc.buf != nil
+//@   ghost inited bool = false
+//@   call (*Integer).decodeInit
+//@     requires arg0 == in
+//@     set inited = (ret0 == nil)
+//@   call (*Integer).decodingUncompressed
+//@     requires [dispatch_raw] inited && enc.encodingType == 4
+//@   call (*Integer).decodingConstDelta
+//@     requires [dispatch_const_delta] inited && enc.encodingType == 1
+//@   call (*Integer).decodingSimple8b
+//@     requires [dispatch_simple8b] inited && enc.encodingType == 2
+//@   call (*Integer).decodingZSTD
+//@     requires [dispatch_zstd] inited && enc.encodingType == 3
+
+// ---- timestamp column: same discipline. The scheme body that follows the type byte is the one the byte names, and
+// the decoder dispatches on the same numbers (1 const-delta, 2 simple8b, 3 snappy, 4 raw).
+//@ func (*Time).packUncompressedData
+//@   call append with out
+//@     requires [raw_type_byte] len(arg1) == 1 && arg1[0] == 64
+//@ func (*Time).constDeltaEncoding
+//@   requires enc != nil && len(enc.deltas) >= 2
+//@   ghost typed bool = false
+//@   call growBuffer
+//@     frame nothing
+//@   call append with out
+//@     requires [type_byte_first] !typed && len(arg1) == 1 ==> arg1[0] == 16
+//@     set typed = typed || len(arg1) == 1
+//@   call MarshalUint64Append
+//@     requires [first_value_after_type] typed && arg1 == enc.deltas[0]
+//@ func (*Time).simple8bEncoding
+//@   call append with out
+//@     requires [type_byte] len(arg1) == 1 && arg1[0] == 32
+//@ func (*Time).snappyEncoding
+//@   call append with out
+//@     requires [type_byte] len(arg1) == 1 && arg1[0] == 48
+//@ func (*Time).Encoding
+//@   requires enc != nil
+//@   call (*Time).constDeltaEncoding
+//@     requires [const_delta_only_if_all_deltas_equal] enc.isConstDelta
+//@   call (*Time).simple8bEncoding
+//@     requires [simple8b_only_if_it_fits] !enc.isConstDelta && enc.isSimple8b
+//@   call (*Time).snappyEncoding
+//@     requires [fallback] !enc.isConstDelta && !enc.isSimple8b
+
+//@ func (*Time).validEncodingType
+//@   requires enc != nil
+//@   ensures result == (enc.encodingType >= 1 && enc.encodingType <= 4)
+//@   assigns nothing
+//@ func (*Time).decodingInit
+//@   requires enc != nil && enc.buf != nil
+//@   ensures [type_from_first_byte] result == nil ==> len(in) >= 5 && enc.encodingType == old(in[0]) / 16
+//@   ensures [only_known_types] result == nil ==> enc.encodingType >= 1 && enc.encodingType <= 4
+//@ func (*Time).Decoding
+//@   requires enc != nil && enc.buf != nil
+//@   ghost inited bool = false
+//@   call (*Time).decodingInit
+//@     requires arg0 == in
+//@     set inited = (ret0 == nil)
+//@   call (*Time).unpackUncompressedData
+//@     requires [dispatch_raw] inited && enc.encodingType == 4
+//@   call (*Time).constDeltaDecoding
+//@     requires [dispatch_const_delta] inited && enc.encodingType == 1
+//@   call (*Time).simple8bDecoding
+//@     requires [dispatch_simple8b] inited && enc.encodingType == 2
+//@   call (*Time).snappyDecoding
+//@     requires [dispatch_snappy] inited && enc.encodingType == 3
